@@ -441,4 +441,29 @@ _upd('C18', text_add=('Added: externals may raise non-Exception failures (Keyboa
 _upd('C14', text_add='Frame analysis rule added: class-level mutable defaults mutated through self.')
 _upd('C15', text_add='Frame analysis rule added: class-level mutable defaults mutated through self; the token allowance is limited to the functions ply hands tokens to.')
 
+# ---- fifth round -------------------------------------------------------------------------------------------------------
+_upd('C07', text_add=('Added (contracts/scopes.py, contracts/obfuscator.py): the symbol tables for arbitrary set / dict contents (z3 arrays): '
+                      'declare, reference, close (every leaked symbol is referenced in the parent with its count; the loop runs over exactly the leaked '
+                      'table), declared / global / non-local / leaked symbols, global symbols of the children, _reserved_symbols (contains every free '
+                      'name used here or below and the resolved name of every outer symbol used here), CatchScope variants, construction and nesting of '
+                      'scopes; every Obfuscator marker handler acts once on exactly the current scope, walk() installs exactly the handler table, '
+                      'prewalk_hook = walk then finalize.'),
+     note=('Trusted: spec/scopes.py oracle; C02 for the non-identifier tokens; neighbours of a scope are doubles with arbitrary sets (induction '
+           'hypothesis); set images known from below; dict iteration model. Not proved: composition into whole-program capture freedom (bounded); '
+           'NameGenerator distinctness (bounded prefix); CatchScope.declare (finding F15).'))
+_upd('C06', text_add='Added: Lexer._update_newline_idx under contract (models of PATTERN.split with one group and of the pairwise zip idiom; loop cut): '
+                     'line counter and recorded line starts are exact for any number of line terminator sequences in a token.')
+for _cid in ('C08', 'C11', 'C12'):
+    _upd(_cid, text_add='Imported with the position contracts of C06: Lexer._update_newline_idx.')
+_upd('C09', text_add='Added: normalize_mappings threads the carry of each line into the next (first: the given column, 0 by default) and keeps one entry per line.')
+_upd('C16', text_add='An exception raised by the walkers on a parsed tree is a violation (was: checker crash).')
+_upd('C20', text_add=('Added: Indentator.layout_handler_newline_optional under contract (neighbour texts over a finite set of shapes, level and indentation '
+                      'strings symbolic: the line break is there exactly once and the indentation of the level follows it), replayed on the real handler; '
+                      'O-depth also prints every production with comments attached to each terminal.'))
+for _cid in ('C01', 'C02', 'C07', 'C14', 'C20'):
+    _upd(_cid, text_add=('Shared walk obligations (contracts/unparse_walk.py): the top-level loop of unparsers.walker.walk yields every text chunk of the '
+                         'rule walk once and in order, each preceded by the resolution of exactly the layout markers pending since the previous text '
+                         'chunk (sequences of any length, loop cut); the recursive rule walker forwards each rule\'s chunks in order, substitutes the '
+                         'error handler\'s answer for a rule that raises, and restores the node / source-path stacks (definitions of <= 3 rules).'))
+
 NOT_APPLICABLE = {}
